@@ -1,6 +1,7 @@
 package main
 
 import (
+	_ "time/tzdata"
 	"bytes"
 	"crypto/ecdsa"
 	"crypto/elliptic"
@@ -410,6 +411,28 @@ func init() {
 		}
 		return "ok " + toHex([]byte(e.SignatureHeaderValue))
 	})
+	// one *Signer object used twice: first with certificate A (result discarded), then, after its Certs / dates were replaced
+	// (certificate rotation), for the exchange whose header is reported. args: <exchange> <certA> <certB> <certUrl> <validityUrl> <date> <expires>
+	register("sxg.sign.mock.rotate", func(args []string) string {
+		e, rest := parseExchange(args)
+		s := mkSigner(append([]string{rest[0]}, rest[2:]...), true)
+		first := *e
+		first.RequestHeaders, first.ResponseHeaders = e.RequestHeaders.Clone(), e.ResponseHeaders.Clone()
+		if err := first.AddSignatureHeader(s); err != nil {
+			return "err-first"
+		}
+		var sink bytes.Buffer
+		first.DumpSignedMessage(&sink, s)
+		certB, err := x509.ParseCertificate(ofHex(rest[1]))
+		if err != nil {
+			panic("bad-op")
+		}
+		s.Certs = []*x509.Certificate{certB}
+		if err := e.AddSignatureHeader(s); err != nil {
+			return "err"
+		}
+		return "ok " + toHex([]byte(e.SignatureHeaderValue))
+	})
 	// go-only: MI-encode (rs > 0) and sign with a real key; prints the resulting exchange
 	register("sxg.sign", func(args []string) string {
 		e, rest := parseExchange(args)
@@ -432,8 +455,7 @@ func init() {
 		}
 		return "ok " + showExchange(e)
 	})
-	register("sxg.verify", func(args []string) string {
-		e, rest := parseExchange(args)
+	verifyWith := func(e *sxg.Exchange, rest []string) string {
 		sec, err1 := strconv.ParseInt(rest[0], 10, 64)
 		nsec, err2 := strconv.ParseInt(rest[1], 10, 64)
 		if err1 != nil || err2 != nil {
@@ -456,6 +478,46 @@ func init() {
 			return "invalid"
 		}
 		return "valid " + toHex(p)
+	}
+	register("sxg.verify", func(args []string) string {
+		e, rest := parseExchange(args)
+		return verifyWith(e, rest)
+	})
+	// provenance: the *Exchange object comes from ReadExchange(file), is then edited in place into the exchange given by the
+	// remaining arguments, and verified. Nothing remembered from the read may stand in for the edited fields.
+	register("sxg.verify.reread", func(args []string) string {
+		e, err := sxg.ReadExchange(bytes.NewReader(ofHex(args[0])))
+		if err != nil {
+			return "inputerr"
+		}
+		b, rest := parseExchange(args[1:])
+		e.Version, e.RequestURI, e.RequestMethod, e.ResponseStatus = b.Version, b.RequestURI, b.RequestMethod, b.ResponseStatus
+		e.SignatureHeaderValue, e.Payload = b.SignatureHeaderValue, b.Payload
+		for k := range e.RequestHeaders {
+			delete(e.RequestHeaders, k)
+		}
+		for k, v := range b.RequestHeaders {
+			e.RequestHeaders[k] = v
+		}
+		for k := range e.ResponseHeaders {
+			delete(e.ResponseHeaders, k)
+		}
+		for k, v := range b.ResponseHeaders {
+			e.ResponseHeaders[k] = v
+		}
+		return verifyWith(e, rest)
+	})
+	// the process's local time zone is an input too (time.Unix yields local times; calendar arithmetic depends on the zone)
+	register("sxg.verify.tz", func(args []string) string {
+		loc, err := time.LoadLocation(args[0])
+		if err != nil {
+			return "notz"
+		}
+		old := time.Local
+		time.Local = loc
+		defer func() { time.Local = old }()
+		e, rest := parseExchange(args[1:])
+		return verifyWith(e, rest)
 	})
 	register("sxg.cacheable", func(args []string) string {
 		e, _ := parseExchange(args)
